@@ -211,6 +211,7 @@ def run(ctx):
                 pbad = pbad or "a loaded segment never gets its permissions"
     # ---- non-loadable headers: per program header visited, the comparisons of its p_type decide which kind it is
     obad = None
+    skbad = None
     n_other = 0
     for o in outs:
         if o.kind != "return":
@@ -225,7 +226,21 @@ def run(ctx):
             for c in conds:
                 if seg_field(c[0], "p_type") and c[1] == "==":
                     ptype = c[2]
-            if ptype is None or ptype == PT_LOAD:
+            if ptype is None:
+                # the header was left before its type was looked at: if nothing was mapped for it and the path goes on to the
+                # next header (or finishes fine), the tests that let it go may only concern p_vaddr -- any other field would
+                # also drop PT_LOAD segments having that property (seeded change S72 skipped headers with p_filesz == 0)
+                evs0 = o.path.events[i:i1]
+                mapped = any(x[0] in ("init_area", "init_zero") for x in evs0)
+                last = j + 1 == len(marks)
+                if not mapped and not (last and is_err(o)):
+                    for c in conds:
+                        flds = {x[2] for x in H.leaves(c[0]) if x[0] == "field" and x[1] == EM.SEG}
+                        if flds - {"p_vaddr"}:
+                            skbad = "a program header is passed over on a test of %s before its type is known: a PT_LOAD segment " \
+                                    "with that property is never mapped" % sorted(flds - {"p_vaddr"})[0]
+                continue
+            if ptype == PT_LOAD:
                 continue
             n_other += 1
             evs = o.path.events[i:i1]
@@ -234,6 +249,7 @@ def run(ctx):
                 if x[0] in ("prot", "write_bytes") and U.strip(x[1]) not in created:
                     obad = obad or "a program header of type %#x %s at its p_vaddr without having created that area" % (
                         ptype, "changes the permissions" if x[0] == "prot" else "overwrites bytes")
+    lbad = lbad or skbad
     if n_eq == 0 or n_zero == 0:
         lbad = lbad or "PT_LOAD variants missing (equal=%d zero=%d)" % (n_eq, n_zero)
     if n_perm == 0:
